@@ -8,6 +8,7 @@ package vsched
 
 import (
 	"fmt"
+	"os"
 	"runtime"
 	"runtime/debug"
 	"sort"
@@ -40,6 +41,7 @@ type chanRef struct {
 	capf   func() int
 	closed func() bool // probe (receive capable channels); nil for send-only views
 	clock  bool        // channel of time.Time: fed by the mock clock
+	ref    any         // the channel itself: keeps it alive so its address is not reused within the execution
 }
 
 type selCase struct {
@@ -189,6 +191,7 @@ type Sched struct {
 	x         *Exec
 	noteSet   map[string]bool
 	rvS       *Thread // sender of the rendezvous in progress
+	keep      map[uintptr]any // objects whose identity (address) is recorded: kept alive against address reuse
 }
 
 var cur *Sched
@@ -300,6 +303,7 @@ func (s *Sched) isClosed(c *chanRef) bool {
 	}
 	if c.closed != nil && c.closed() {
 		s.closedSet[c.id] = true
+		s.keep[c.id] = c.ref
 		return true
 	}
 	return false
@@ -346,6 +350,9 @@ func (s *Sched) enabledTransitions() []*trans {
 			return true, false
 		}
 		if s.isClosed(c) {
+			if os.Getenv("VSCHED_DEBUG") != "" {
+				fmt.Fprintf(os.Stderr, "DEBUG closed chan id=%x inSet=%v node=%d\n", c.id, s.closedSet[c.id], len(s.nodes))
+			}
 			return true, true
 		}
 		return false, false
@@ -524,6 +531,9 @@ func (s *Sched) updateHash(tr *trans) {
 	h = mix(h, s.objHash[0]) // epoch of the last globally conflicting transition
 	for _, a := range tr.acc {
 		oh := s.objHash[a.obj]
+		if tr.t.pending != nil && tr.t.pending.ch != nil && tr.t.pending.ch.id == a.obj {
+			s.keep[a.obj] = tr.t.pending.ch.ref
+		}
 		h = mix(h, oh)
 		if a.write {
 			s.objHash[a.obj] = mix(oh, h)
@@ -791,6 +801,7 @@ func Access(obj any, write bool, label string) {
 	if s == nil {
 		return
 	}
+	s.keep[objID(obj)] = obj
 	s.yield(&Op{kind: opAccess, acc: []access{{objID(obj), write}}, label: label})
 }
 
@@ -809,6 +820,7 @@ func SyncOp(obj any, write bool, label string, enabled func() bool) {
 	if s == nil {
 		panic("vsched.SyncOp in pass-through mode")
 	}
+	s.keep[objID(obj)] = obj
 	s.yield(&Op{kind: opSync, obj: objID(obj), write: write, label: label, enabled: enabled})
 }
 
